@@ -13,6 +13,11 @@ Proof.
   now rewrite E1, E2.
 Qed.
 
+Lemma bind_ret_tt (m : M unit) h : (m ;;; ret tt) h = m h.
+Proof. unfold bind, ret. destruct (m h) as (h', [[]|e]); reflexivity. Qed.
+Lemma bind_ext {A B} (m : M A) (k k' : A -> M B) h : (forall a h', k a h' = k' a h') -> bind m k h = bind m k' h.
+Proof. intros E. unfold bind. destruct (m h) as (h', [a|e]); auto. Qed.
+
 Lemma setitem_append h x nx c nc :
   get h x = Some nx -> get h c = Some nc -> x <> c ->
   let len := Z.of_nat (length (children nx)) in
@@ -27,7 +32,12 @@ Proof.
   rewrite slice_indices_end by lia.
   assert (RL : range_len len len 1 = 0%Z).
   { unfold range_len. cbn. assert ((len <? len)%Z = false) by (apply Z.ltb_ge; lia). now rewrite H. }
-  rewrite RL. cbn [length Z.of_nat Pos.of_succ_nat Z.eqb negb].
+  rewrite RL.
+  replace (Z.to_nat (Z.max len len) - Z.to_nat len)%nat with 0%nat by lia.
+  change (1 =? 1)%Z with true. cbv iota. cbn [firstn].
+  change (detach_removed x [] [c]) with (ret tt : M unit).
+  erewrite bind_ext; [|intros; apply bind_ret_tt].
+  cbn [length Z.of_nat Pos.of_succ_nat Z.eqb negb].
   change (1 =? 1)%Z with true. change (1 =? 0)%Z with false. cbn [negb]. change (0 <? 1)%Z with true. cbv iota.
   unfold bind at 1. unfold modn at 1.
   replace (Z.to_nat len) with (length (children nx)) by (unfold len; now rewrite Nat2Z.id).
